@@ -112,6 +112,7 @@ impl AmlGen<'_> {
         let n = 1 + self.t.draw(4);
         let mut out = Vec::new();
         for _ in 0..n {
+            self.t.begin_group();
             let tag = self.tag();
             let block = self.t.chance(1, 3);
             let repeat = allow_repeat && self.t.chance(1, 3);
@@ -131,6 +132,7 @@ impl AmlGen<'_> {
                 _ => Some(self.ty(depth)),
             };
             out.push(Member { tag, block, repeat, item });
+            self.t.end_group();
         }
         out
     }
@@ -249,6 +251,13 @@ fn ty_eq(a: &Ty, b: &Ty) -> bool {
 
 /// generate an A2ML definition (text of the A2ML block without /begin A2ML ... /end A2ML)
 pub fn gen_a2ml(t: &mut Tape) -> A2mlDef {
+    t.begin_group();
+    let def = gen_a2ml_inner(t);
+    t.end_group();
+    def
+}
+
+fn gen_a2ml_inner(t: &mut Tape) -> A2mlDef {
     let style = t.draw(3);
     let mut g = AmlGen { t, tagno: 0, named: Vec::new(), pre: String::new(), style };
     let root = if g.t.chance(5, 6) { Ty::TUnion(g.members(0, false)) } else { Ty::TStruct(g.members(0, true)) };
@@ -375,6 +384,12 @@ fn instance(g: &mut DocGen, ty: &Ty, out: &mut Vec<Item>, depth: u32) {
 }
 
 fn tagged_instance(g: &mut DocGen, m: &Member, out: &mut Vec<Item>, depth: u32) {
+    g.t.begin_group();
+    tagged_instance_inner(g, m, out, depth);
+    g.t.end_group();
+}
+
+fn tagged_instance_inner(g: &mut DocGen, m: &Member, out: &mut Vec<Item>, depth: u32) {
     if m.block {
         let mut node = Node { tag: m.tag.clone(), block: true, body: Vec::new(), name: None };
         if let Some(t) = &m.item {
